@@ -17,6 +17,8 @@
 //	     -> one block per op (and one for the initial open), joined by " | ":
 //	        <result> [start,end,suffix;...] {dir,dir,...}
 //
+//	wq <engine> <unit> <num> <part>...   one flusher round of the liaison write queue, see wq()
+//
 // <ztable> is ignored here (it feeds the Lean model); <zone> is an IANA name, "UTC" or "F<seconds>".
 package main
 
@@ -35,6 +37,8 @@ import (
 	commonv1 "github.com/apache/skywalking-banyandb/api/proto/banyandb/common/v1"
 	"github.com/apache/skywalking-banyandb/banyand/internal/storage"
 	"github.com/apache/skywalking-banyandb/banyand/internal/verifdrv/drv"
+	"github.com/apache/skywalking-banyandb/banyand/measure"
+	"github.com/apache/skywalking-banyandb/banyand/stream"
 	"github.com/apache/skywalking-banyandb/pkg/fs"
 	"github.com/apache/skywalking-banyandb/pkg/logger"
 	"github.com/apache/skywalking-banyandb/pkg/timestamp"
@@ -127,8 +131,76 @@ func handle(f []string) string {
 			ir.Standard(n).UnixNano(), ir.Standard(n.Add(-1)).UnixNano())
 	case "hist":
 		return hist(f)
+	case "wq":
+		return wq(f)
 	}
 	return "bad-op"
+}
+
+// wq <engine stream|measure> <unit> <num> <part> ...   (part = ts,ts,...; zone UTC)
+// One round of the liaison write queue's flusher (tsTable.mergeMemParts) over mem parts tagged with
+// the start of their segment window, as writeQueueCallback.Rev tags them.
+// -> rows=<rows in> parts=<min,max,count;...> (sorted)
+func wq(f []string) string {
+	if len(f) < 5 {
+		return "bad-op"
+	}
+	time.Local = time.UTC
+	ir := storage.IntervalRule{Unit: unit(f[2]), Num: int(i64(f[3]))}
+	var parts [][]int64
+	var segIDs []int64
+	rows := 0
+	for _, p := range f[4:] {
+		var ts []int64
+		for _, t := range strings.Split(p, ",") {
+			ts = append(ts, i64(t))
+		}
+		rows += len(ts)
+		parts = append(parts, ts)
+		segIDs = append(segIDs, ir.Standard(time.Unix(0, ts[0])).UnixNano())
+	}
+	caseNo++
+	dir := filepath.Join(scratchRoot, fmt.Sprintf("q%d", caseNo))
+	if err := os.MkdirAll(dir, 0o700); err != nil {
+		panic(err)
+	}
+	defer os.RemoveAll(dir)
+	type part struct {
+		min, max int64
+		n        uint64
+	}
+	var res []part
+	switch f[1] {
+	case "stream":
+		ps, err := stream.VerifSegQueueRound(dir, segIDs, parts)
+		if err != nil {
+			return "ERR"
+		}
+		for _, p := range ps {
+			res = append(res, part{p.Min, p.Max, p.Count})
+		}
+	case "measure":
+		ps, err := measure.VerifSegQueueRound(dir, segIDs, parts)
+		if err != nil {
+			return "ERR"
+		}
+		for _, p := range ps {
+			res = append(res, part{p.Min, p.Max, p.Count})
+		}
+	default:
+		return "bad-op"
+	}
+	sort.Slice(res, func(i, j int) bool {
+		if res[i].min != res[j].min {
+			return res[i].min < res[j].min
+		}
+		return res[i].max < res[j].max
+	})
+	var sb []string
+	for _, p := range res {
+		sb = append(sb, fmt.Sprintf("%d,%d,%d", p.min, p.max, p.n))
+	}
+	return fmt.Sprintf("rows=%d parts=%s", rows, strings.Join(sb, ";"))
 }
 
 type world struct {
